@@ -28,6 +28,16 @@ func VerifPoll(ctx context.Context, s *Subscriber) (uint64, bool, error) { retur
 
 func VerifNextInstance(s *Subscriber) uint64 { return s.poller.NextInstance }
 
+// VerifRound does what one timer tick of Subscriber.run does before it consults the predictor:
+// catch up with the local store, and poll only if that made no progress.
+func VerifRound(ctx context.Context, s *Subscriber) (uint64, bool, error) {
+	progress, err := s.poller.CatchUp(ctx)
+	if err != nil || progress > 0 {
+		return progress, false, err
+	}
+	return s.poll(ctx)
+}
+
 // VerifPredictor wraps the unexported interval predictor.
 type VerifPredictor struct{ p *predictor }
 
